@@ -12,6 +12,13 @@ def fuzz(name, target, fuzztime, workers=8, timeout=None):
     return {"name": name, "kind": "fuzz", "target": target, "thorough": t}
 
 PROPS = {
+    "C03": {
+        "level": "exploration",
+        "jobs": [
+            rapid("sign", "^TestC03$", {"checks": 25, "shards": 8, "timeout": 900, "shrinktime": "30s"},
+                  {"checks": 600, "shards": 14, "timeout": 5000, "shrinktime": "120s"}),
+        ],
+    },
     "C12": {
         "level": "exploration",
         "jobs": [
